@@ -35,7 +35,15 @@ def run(F, chk):
     D2.floor('argument iterator next() (anchor: impl Iterator for DltMessageArgIterator)', len(nexts), 1)
     dec = {}
     for b in nexts:
-        check_index_sites(b, D2)
+        # private methods of the iterator that next() delegates to (next_non_verbose(), next_strg_or_rawd(..)) are held to the
+        # same rule; the anchor count is taken over all of them
+        group = [b]
+        for blk in b.calls():
+            H = F.get(blk.term.callee.resolved) if blk.term.callee.resolved else F.get(blk.term.callee.path)
+            if H is not None and H.kind != 'closure' and H.path != b.path and (H.impl_self or '').startswith(ARGIT) and H not in group:
+                group.append(H)
+        total = sum(check_index_sites(x, D2) for x in group)
+        D2.floor('payload index sites in ' + b.path, total, 5)
         dec = decoder_table(b)
     check_tables(F, dec, D1)
     D3 = chk.rule('D3', 'every string argument text pushed into the rendering passed through the CR/LF/TAB -> space replacement')
@@ -44,6 +52,8 @@ def run(F, chk):
     check_length_prefix(F, D4)
     D5 = chk.rule('D5', 'the argument renderer never casts a float to an integer (floats are rendered by the float formatter)')
     check_float_rendering(F, D5)
+    D6 = chk.rule('D6', 'the renderer reads a single byte of an argument value only when the value is one byte long, a BOOL, or string/raw data (multi-byte numbers go through from_be/le_bytes as a whole)')
+    check_single_byte_reads(F, D6)
 
 
 def vars_of(e):
@@ -191,7 +201,7 @@ def check_index_sites(body, D2):
         else:
             ok, why, shown = verdicts[0]
             D2.violation(('unguarded-payload-access', body.path, shown), 'payload access [%s] at %s can read outside the payload: %s' % (shown, body.loc(t.sp), why), where=body.loc(t.sp))
-    D2.floor('payload index sites in ' + body.path, n, 5)
+    return n
 
 
 def decoder_table(body):
@@ -602,3 +612,79 @@ def check_float_rendering(F, D5):
         D5.violation(('float-rendered-through-integer', b.path), 'the argument renderer casts a float to an integer at %s (%d site(s)): -0.0, NaN, infinities and large values lose their text form' % (x.loc(s.sp), len(bad)), where=x.loc(s.sp))
     else:
         D5.ok(sample={'float_decode_sites': nfloat, 'float_to_int_casts': 0})
+
+
+# ---------------------------------------------------------------------------------------------
+# D6: no byte-wise peeking into multi-byte numeric values
+
+def _byte_context(cfg, E, at, raw_pred):
+    """why a single byte read at block `at` is independent of the byte order: value is 1 byte long / BOOL / string / raw"""
+    ENDIAN_FREE = {0x10: 'BOOL', 0x200: 'STRG', 0x400: 'RAWD'}
+    for (c, truth, D) in guards.known(cfg, E, at):
+        sc = show(c)
+        if truth == ('eq', 1) and raw_pred(sc) and ('len(' in sc or 'PtrMetadata(' in sc):
+            return 'value is one byte long (len == 1)'
+        if truth is True and isinstance(c, tuple) and c[0] == 'bin' and c[1] == 'Eq' and fold(c[3]) == 1 and raw_pred(show(c[2])) and ('len(' in show(c[2]) or 'PtrMetadata(' in show(c[2])):
+            return 'value is one byte long (len == 1)'
+        if truth is True and isinstance(c, tuple) and c[0] == 'bin' and c[1] in ('Gt', 'Ne') and fold(c[3]) == 0 and isinstance(c[2], tuple) and c[2][0] == 'bin' and c[2][1] == 'BitAnd' \
+                and 'type_info' in show(c[2][2]) and fold(c[2][3]) in ENDIAN_FREE:
+            return 'argument is %s' % ENDIAN_FREE[fold(c[2][3])]
+    return None
+
+
+def check_single_byte_reads(F, D6):
+    """"decodes each argument to its type and value": the value of a multi-byte SINT/UINT/FLOA is defined by all its bytes in
+    the message byte order - the decode is `from_be_bytes`/`from_le_bytes` on the whole slice.  A decision taken from one
+    byte picked by position (`raw[raw.len() - 1] & 0x80` for the sign, `raw[0]` as low byte) silently assumes one byte
+    order.  So a single-byte read of `payload_raw` in the renderer, or of the raw slice in a helper it hands the slice to, is
+    accepted only where the position cannot matter: under `len == 1`, for BOOL (one byte by construction of the iterator),
+    or inside the string / raw-data branches (byte-wise text)."""
+    b = F.get('adlt::dlt::DltMessage::process_msg_arg_iter')
+    if b is None:
+        D6.violation(('anchor-lost', 'process_msg_arg_iter'), 'argument renderer not found')
+        return
+    n = 0
+    cfg = CFG(b)
+    E = ExprBuilder(cfg, fold_named=True)
+    D6.fn(b.path)
+
+    def reads(body, bcfg, bE, raw_pred):
+        for blk in body.blocks:
+            if blk.cleanup or blk.term.k != 'assert' or blk.term.d['ak'] != 'BoundsCheck':
+                continue
+            ln = bE.operand(Operand(blk.term.d['ops'][0]))
+            if raw_pred(show(ln)):
+                yield blk
+    in_b = lambda sx: 'payload_raw' in sx
+    for blk in reads(b, cfg, E, in_b):
+        n += 1
+        D6.sites += 1
+        why = _byte_context(cfg, E, blk.i, in_b)
+        if why:
+            D6.ok(sample={'byte_read_at': b.loc(blk.term.sp), 'order_independent_because': why})
+        else:
+            D6.violation(('byte-of-multibyte-value', b.path), 'the renderer reads a single byte of the argument value at %s outside `len == 1` / BOOL / string branches: a decision taken from one byte picked by position assumes one byte order' % b.loc(blk.term.sp),
+                         where=b.loc(blk.term.sp))
+    # helpers that receive the argument or its raw slice (followed two levels deep)
+    import rawreads
+
+    def follow(body, bcfg, bE, pred, ctx_outer, depth):
+        nonlocal n
+        for (cb, H, hpred) in rawreads.helper_calls(F, body, bE, pred):
+            ctx = ctx_outer or _byte_context(bcfg, bE, cb.i, pred)
+            hcfg = CFG(H)
+            hE = ExprBuilder(hcfg, fold_named=True)
+            D6.fn(H.path)
+            for blk in rawreads.byte_reads(H, hE, hpred):
+                n += 1
+                D6.sites += 1
+                why = ctx or _byte_context(hcfg, hE, blk.i, hpred)
+                if why:
+                    D6.ok(sample={'byte_read_at': H.loc(blk.term.sp), 'in_helper': H.path, 'order_independent_because': why})
+                else:
+                    D6.violation(('byte-of-multibyte-value', H.path), '%s, called by the renderer at %s with the raw argument value, reads a single byte of it at %s although the value can be longer than one byte there: '
+                                 'a decision taken from one byte picked by position (sign, low byte) assumes one byte order - values of the other byte order are rendered wrongly' % (H.path, body.loc(cb.term.sp), H.loc(blk.term.sp)), where=H.loc(blk.term.sp))
+            if depth < 2:
+                follow(H, hcfg, hE, hpred, ctx, depth + 1)
+    follow(b, cfg, E, in_b, None, 1)
+    D6.floor('single-byte reads of the raw argument value in the renderer', n, 3)
